@@ -8,13 +8,7 @@ CONSTRAINT Export
 INVARIANT ImplRefinesReq
 INVARIANT ImplPrefix
 INVARIANT RaisedIffNotDir
-INVARIANT LawBetween
-INVARIANT LawFinite
-INVARIANT LawTopLevel
-INVARIANT LawStrict
-INVARIANT LawFollow
-INVARIANT LawFlatIgnoresFollow
-INVARIANT LawDsBetween
+INVARIANT Laws
 INVARIANT WalkBounded
 INVARIANT NoStuck
 INVARIANT StepsExact
